@@ -323,7 +323,7 @@ Proof. exact @zoomed_keeps_value_and_coordinate. Qed.
 Theorem C14_zoom_geometry_negative_window_raises : forall (m : list (list bool)) (sy sx oy ox : R) y0 y1 x0 x1 b,
   zoom_region m = Ok (y0, y1, x0, x1) -> (y1 - y0) + 2 * b < 0 \/ (x1 - x0) + 2 * b < 0 ->
   @zoomed_geometry ROps m (sy, sx, oy, ox) b = Raise OtherException.
-Proof. intros m sy sx oy ox y0 y1 x0 x1 b EZ. exact (zoomed_geometry_raises m sy sx oy ox y0 y1 x0 x1 EZ b). Qed.
+Proof. exact zoomed_geometry_negative_window_raises. Qed.
 
 (* Mask2D.zoom_mask_unmasked: shape of the zoom region, origin = origin + zoom_offset_scaled = mask_centre (the geometry of
    zoomed_around_mask(buffer=0)); each of its pixels carries the coordinate of the pixel of the original frame it covers *)
